@@ -564,8 +564,8 @@ CHECKS['C11'] = {
     'title': 'real special functions and reductions are accurate in every configuration', 'level': 'exploration', 'engine': 'grid', 'jobs': c11_jobs,
     'rule': ('bounded-exhaustive enumeration against libquadmath (double build) / the host double libm (float build, univariate sweep). asinh, acosh, atanh, expm1, log1p: both the library fallback bodies (always compiled, called by symbol) and the names as bound by the build configuration; '
              'float width: ALL 2^32 bit patterns in thorough (a complete decision for that configuration), every pattern with the low 11 mantissa bits zero (2^21) in quick; double width: every (sign, exponent, top 6 / 10 mantissa bits) pattern; plus every branch constant of the fallbacks (sqrt eps, 1/sqrt eps, 2, 1, 1/2, eps) +-2 ulp. '
-             'Error budget 8 eps x (1 + conditioning of the function for a half-ulp argument change); worst observed 1.3. atan2 (fallback and bound) on all pairs of a 60-value axis including exact axis points, RMIN, RMAX and magnitudes 2^+-1000; norm2 / hypot, norm3, norm and norm_ with strides 1..3 (gaps poisoned with huge values) including values whose squares over- or underflow: within 4-8 eps whenever the true norm is representable; '
-             'polar / spherical conversions with round trips; sum, sum1, sum2, mean, dot and strided forms, copy, swap, fill, zero, push_fore/back(_), roll_fore/back(_) for EVERY length 0..6, strides 1..3 (stride pairs for dot_/copy_), cache / shift lengths 0..7 with small-integer contents (exact comparison) and guard cells. '
+             'Error budget 8 eps of the exact value (the argument is an exact floating-point number, so no conditioning allowance; worst observed on the unchanged tree 2.1 eps). atan2 (fallback and bound) on all pairs of a 60-value axis including exact axis points, RMIN, RMAX and magnitudes 2^+-1000; norm2 / hypot, norm3, norm and norm_ with strides 1..3 (gaps poisoned with huge values) including values whose squares over- or underflow: within 4-8 eps whenever the true norm is representable; '
+             'polar / spherical conversions with round trips; sum, sum1, sum2, mean, dot and strided forms, copy, swap, fill, zero, push_fore/back(_), roll_fore/back(_) for EVERY length 0..6, strides 1..3 (stride pairs for dot_/copy_), cache / shift lengths 0..7 with small-integer contents (exact comparison) and guard cells; means of all vectors of length 1..3 over {+-MAX, +-MAX/2, 1} (the mean is representable where the plain sum is not). '
              'Configurations: quick = every real switch on / every switch off x {double, float}; thorough adds each of the 7 real switches flipped alone from each extreme (float: complete sweep in each of these 16 configurations too). distinct_nontrivial counts evaluations with a non-zero reference / more than one element.'),
     'assumptions': ['libquadmath is the reference; for the univariate sweep of the float build the host double-precision libm (error 2^-29 float eps) is the reference, which makes the complete 2^32 sweep affordable', 'signed zeros are not distinguished (the statement names quadrants and axes)', 'double-width univariate helpers are covered on the (sign, exponent, leading mantissa bits) lattice, not completely'],
     'design_ref': '§4.C11', 'technique': 'complete enumeration of the float domain (2^32 bit patterns per function in thorough) and stated double lattices against quad-precision references; exact integer references for reductions and movers',
